@@ -52,6 +52,9 @@ Faults ==
   \cup {[kind |-> "ordering", name |-> Params[i].name, a |-> 0, b |-> 0] : i \in {j \in 1..NP : Len(Params[j].modes) >= 2}}
   \cup UNION {{[kind |-> "dim", name |-> Params[i].name, a |-> d, b |-> x] :
                   d \in 1..Len(Params[i].modes), x \in {-1, 1}} : i \in 1..NP}
+  \* one dimension of one argument is EMPTY (size 0): inconsistent exactly when another participant shares the index
+  \cup UNION {{[kind |-> "dimzero", name |-> Params[i].name, a |-> d, b |-> 0] :
+                  d \in 1..Len(Params[i].modes)} : i \in 1..NP}
 
 --------------------------------------------------------------------------
 (* The call a fault produces: name -> argument descriptor *)
@@ -73,6 +76,8 @@ Arg(i) ==
          [] f.kind = "ordering" -> [tensor |-> TRUE, modes |-> P.modes, ordering |-> Swap12(P.ordering), dims |-> BaseDims(i)]
          [] f.kind = "dim" -> [tensor |-> TRUE, modes |-> P.modes, ordering |-> P.ordering,
                                dims |-> [BaseDims(i) EXCEPT ![f.a] = @ + f.b]]
+         [] f.kind = "dimzero" -> [tensor |-> TRUE, modes |-> P.modes, ordering |-> P.ordering,
+                                   dims |-> [BaseDims(i) EXCEPT ![f.a] = 0]]
          [] OTHER -> [tensor |-> TRUE, modes |-> P.modes, ordering |-> P.ordering, dims |-> BaseDims(i)]
 
 Supplied == (ParamNames \ (IF fault.kind = "missing" THEN {fault.name} ELSE {}))
